@@ -43,6 +43,8 @@ def op_list(lines, tracks):
     # the callable may hand back note objects that ALREADY sit in the pattern (keep this cell) next to new ones
     ops.append({"op": "fn", "tag": "B", "fail": None, "keep": "even"})
     ops.append({"op": "fn", "tag": "A", "fail": None, "keep": "all"})
+    # ... or the SAME new note object for every cell
+    ops.append({"op": "fn", "tag": "A", "fail": None, "shared": True})
     # the callable may fail with ANY exception class -- also one that iteration machinery treats specially
     for k in sorted({0, len(cells) // 2, len(cells) - 1}):
         for exc in ("StopIteration", "IndexError", "KeyError", "GeneratorExit"):
@@ -50,6 +52,8 @@ def op_list(lines, tracks):
     subsets = [("none", [])] + [(f"cell{k}", [cells[k]]) for k in range(len(cells))]
     subsets.append(("row0", [c for c in cells if c[0] == 0]))
     subsets.append(("all", cells))
+    # the generator may also write a new note DIRECTLY into the working array it is handed ("possible but discouraged")
+    ops.append({"op": "gen", "tag": "B", "subset": "direct", "cells": [list(cells[-1])], "fail": None, "direct": [list(cells[0])]})
     for name, S in subsets:
         for j in [None] + list(range(len(S) + 1)):
             ops.append({"op": "gen", "tag": "A" if name != "all" else "B", "subset": name, "cells": [list(c) for c in S], "fail": j})
@@ -67,6 +71,7 @@ def apply_op(pat, grid, op, lines, tracks):
     new = [row[:] for row in grid]
     if op["op"] == "fn":
         count = [0]
+        shared_note = mk(op["tag"], 0, 0) if op.get("shared") else None
 
         def fn(p, line, track):
             k = count[0]
@@ -75,6 +80,8 @@ def apply_op(pat, grid, op, lines, tracks):
                 raise _exc(op)
             if op.get("keep") == "all" or (op.get("keep") == "even" and k % 2 == 0):
                 return p.data[line][track]
+            if shared_note is not None:
+                return shared_note
             return mk(op["tag"], line, track)
 
         expect_fail = op["fail"] is not None
@@ -83,7 +90,7 @@ def apply_op(pat, grid, op, lines, tracks):
             for l in range(lines):
                 for t in range(tracks):
                     if not (op.get("keep") == "all" or (op.get("keep") == "even" and k2 % 2 == 0)):
-                        new[l][t] = cell_value(op["tag"], l, t)
+                        new[l][t] = cell_value(op["tag"], 0, 0) if op.get("shared") else cell_value(op["tag"], l, t)
                     k2 += 1
         try:
             pat.set_via_fn(fn)
@@ -103,6 +110,8 @@ def apply_op(pat, grid, op, lines, tracks):
         S = [tuple(c) for c in op["cells"]]
 
         def gen(p, data):
+            for (dl, dt) in [tuple(c) for c in op.get("direct", [])]:
+                data[dl][dt] = mk("A", dl, dt)
             for i, (l, t) in enumerate(S):
                 if op["fail"] is not None and i == op["fail"]:
                     raise Boom()
@@ -112,6 +121,8 @@ def apply_op(pat, grid, op, lines, tracks):
 
         expect_fail = op["fail"] is not None
         if not expect_fail:
+            for (dl, dt) in [tuple(c) for c in op.get("direct", [])]:
+                new[dl][dt] = cell_value("A", dl, dt)
             for (l, t) in S:
                 new[l][t] = cell_value(op["tag"], l, t)
         try:
